@@ -19,7 +19,7 @@ UTF-8 bytes, the empty string is `-`):
                                           caps := <hex node>|<ver>  or  no-caps (empty capabilities node)
   query <node>                            → ver of the answered info set, or not-found
   info := I<n> (cat type lang name){n} F<m> feat{m} <form>
-  form := X- | X<k> (key kind <c> value{c}){k}         kind := t (QString) | l (QStringList) | b (bool: 31 / 30)
+  form := X- | X<k> (key kind <c> value{c}){k}         kind := t (QString; count 0 = null string) | l (QStringList) | b (bool: 31 / 30)
   ext  := F<m> feat{m} I<n> (cat type lang name){n}
 -/
 
@@ -83,6 +83,7 @@ def pField : P Field := fun ts =>
           if kind = "t" then
             match vs with
             | [v] => some ({ key := key, value := .text v }, ts)
+            | [] => some ({ key := key, value := .null }, ts)
             | _ => none
           else if kind = "l" then some ({ key := key, value := .list vs }, ts)
           else if kind = "b" then
